@@ -319,12 +319,21 @@ func verifJSON(v interface{}) string {
 
 // ---- the history engine for C10-C13
 
-const verifSnapName = "some-snap"
 
 func verifBodyHistory(s *verifEngC, gc *check.C) {
 	c := s.ctx
 	st := s.state
 	onClassic := c.Draw("on-classic", 2) == 1
+	// the snap of the history: an application snap, or (C11/C12) the model's
+	// kernel snap on a core device, whose revisions named by the bootloader
+	// variables are in use for booting
+	verifSnapName, snapID, snapType := "some-snap", "some-snap-id", "app"
+	isKernel := (c.Active("C12") || c.Active("C11")) && c.Draw("kernel-snap", 4) == 3
+	if isKernel {
+		verifSnapName, snapID, snapType = "kernel", "kernel-id", "kernel"
+		onClassic = false
+		c.Count("probe:kernel-snap-history")
+	}
 	defer release.MockOnClassic(onClassic)()
 	s.wrapHandlers()
 	defer s.releaseAll()
@@ -332,21 +341,21 @@ func verifBodyHistory(s *verifEngC, gc *check.C) {
 	// initial installation: 1-3 kept revisions, current is any of them
 	initial := &verifWorld{mounted: map[string]map[int]bool{"core": {1: true}}, linked: map[string]int{"core": 1}}
 	nextRev := 1
-	installed := c.Draw("initially-installed", 4) != 3
+	installed := c.Draw("initially-installed", 4) != 3 || isKernel
 	st.Lock()
 	if installed {
 		nk := 1 + c.Draw("initial-kept", 4)
 		var sis []*snap.SideInfo
 		initial.mounted[verifSnapName] = map[int]bool{}
 		for i := 0; i < nk; i++ {
-			sis = append(sis, &snap.SideInfo{RealName: verifSnapName, SnapID: "some-snap-id", Revision: snap.R(nextRev)})
+			sis = append(sis, &snap.SideInfo{RealName: verifSnapName, SnapID: snapID, Revision: snap.R(nextRev)})
 			initial.mounted[verifSnapName][nextRev] = true
 			nextRev++
 		}
 		cur := sis[len(sis)-1-c.Draw("initial-current-back", nk)].Revision
 		snapstate.Set(st, verifSnapName, &snapstate.SnapState{
 			Active: true, Sequence: snapstatetest.NewSequenceFromSnapSideInfos(sis),
-			TrackingChannel: "latest/stable", Current: cur, SnapType: "app",
+			TrackingChannel: "latest/stable", Current: cur, SnapType: snapType,
 		})
 		initial.linked[verifSnapName] = cur.N
 		tr := config.NewTransaction(st)
@@ -372,6 +381,26 @@ func verifBodyHistory(s *verifEngC, gc *check.C) {
 		beforeProj := verifProjection(st, verifSnapName)
 		beforeWorld := s.world(initial)
 		copiesBefore := beforeWorld.copies
+		// revisions the bootloader names are in use for booting
+		inUse := map[int]bool{}
+		if isKernel && have {
+			vars := map[string]string{"snap_kernel": fmt.Sprintf("kernel_%d.snap", before.Current.N), "snap_try_kernel": "", "snap_mode": ""}
+			inUse[before.Current.N] = true
+			if len(bseq) > 1 && c.Draw("boot-vars", 2) == 1 {
+				// the window between snapd switching the current revision (refresh or
+				// revert) and the reboot: the device still runs another kept revision,
+				// the current one is being tried
+				b := bseq[c.Draw("booted-rev", len(bseq))]
+				if b != before.Current.N {
+					vars["snap_kernel"] = fmt.Sprintf("kernel_%d.snap", b)
+					vars["snap_try_kernel"] = fmt.Sprintf("kernel_%d.snap", before.Current.N)
+					vars["snap_mode"] = "try"
+					inUse[b] = true
+					c.Count("probe:try-and-current-kernel-both-in-use")
+				}
+			}
+			s.bl.SetBootVars(vars)
+		}
 		var ts *state.TaskSet
 		var err error
 		desc := ""
@@ -384,6 +413,13 @@ func verifBodyHistory(s *verifEngC, gc *check.C) {
 		case 10:
 			op = 4
 		}
+		if isKernel && (op == 6 || op == 8 || op == 2) {
+			// the model's kernel is neither disabled nor removed; a refresh to a
+			// kept revision reads the snap's type from the fixture's fake ReadInfo,
+			// which does not know "kernel" is a kernel (the in-use check is then
+			// skipped for a reason that is the stub's, not snapd's)
+			op = 0
+		}
 		switch {
 		case !have:
 			target = nextRev
@@ -393,7 +429,7 @@ func verifBodyHistory(s *verifEngC, gc *check.C) {
 		case op <= 1: // refresh to a new revision, maybe switching channel
 			target = nextRev
 			nextRev++
-			s.fakeStore.refreshRevnos = map[string]snap.Revision{"some-snap-id": snap.R(target)}
+			s.fakeStore.refreshRevnos = map[string]snap.Revision{snapID: snap.R(target)}
 			var opts *snapstate.RevisionOptions
 			if c.Draw("switch-channel", 3) == 2 {
 				opts = &snapstate.RevisionOptions{Channel: "some-channel"}
@@ -673,6 +709,34 @@ func verifBodyHistory(s *verifEngC, gc *check.C) {
 				}
 			}
 			n0, n1 := len(bseq), len(aseq)
+			// kept revisions still needed for booting do not count
+			u := 0
+			for r := range inUse {
+				if r != after.Current.N {
+					u++
+				}
+				kept := false
+				for _, a := range aseq {
+					if a == r {
+						kept = true
+					}
+				}
+				wasKeptBefore := false
+				for _, b := range bseq {
+					if b == r {
+						wasKeptBefore = true
+					}
+				}
+				if wasKeptBefore && (!kept || !w.mounted[verifSnapName][r]) && before.LastIndex(snap.R(r)) > before.LastIndex(before.Current) {
+					c.Violate("C12/in-use-revision-discarded:booted-revision-left-over-after-current", "revision %d is the one the device is still running (reverted from, reboot pending) but the refresh discarded it with the other revisions after the current one (kept %v -> %v, %s)", r, bseq, aseq, w.describe(verifSnapName))
+				} else if wasKeptBefore && (!kept || !w.mounted[verifSnapName][r]) {
+					c.Violate("C12/in-use-revision-discarded", "revision %d is in use for booting but was discarded by the refresh (kept %v -> %v, %s)", r, bseq, aseq, w.describe(verifSnapName))
+				}
+				if wasKeptBefore {
+					c.Count("probe:in-use-revision-survived-refresh")
+				}
+			}
+			n1 -= u
 			max := retain
 			if n0 > max {
 				max = n0
@@ -695,7 +759,7 @@ func verifBodyHistory(s *verifEngC, gc *check.C) {
 			oldIdx := before.LastIndex(before.Current)
 			for _, r := range bseq[oldIdx+1:] {
 				for _, a := range aseq {
-					if a == r && r != target {
+					if a == r && r != target && !inUse[r] {
 						c.Violate("C12/after-current-not-discarded", "revision %d, after the old current %d, is still kept (%v)", r, before.Current.N, aseq)
 					}
 				}
